@@ -6,6 +6,7 @@ CONSTANTS
   ValidateOnPrint = TRUE
   EagerType = TRUE
   MdVariant = "code"
+  HeaderBeforeAssign = FALSE
   AllocaRefresh = "fields"
   MaxCalls = 5
   Groups = {"globals", "aliases", "ifuncs"}
@@ -31,6 +32,6 @@ CONSTANTS
   Observers = {"PrintModule"}
   EmitFile = "transitions.ndjson"
 VIEW View
-INVARIANTS TypeOK NumberingCorrect PrintTotalOnParsed AssignIdempotent ObserverTransparent PrintTwiceSame
+INVARIANTS TypeOK NumberingCorrect PrintTotalOnParsed AssignIdempotent ObserverTransparent PrintTwiceSame PrintFuncTwiceSame PrintBlockTwiceSame PrintFuncIsPart
 PROPERTIES ObserverTransparentStep
 CHECK_DEADLOCK FALSE
